@@ -212,13 +212,24 @@ Definition spec_jaeger_extract (h : bytes) (o : option xobs) (same : bool) : lis
 Definition kind_name (k : prop_kind) : string :=
   match k with KSingle => "b3_single" | KMulti => "b3_multi" | KJaeger => "jaeger" end.
 
-Definition spec_roundtrip (k : prop_kind) (c : span_ctx) (o : option xobs) (same : bool) : list tok :=
+Definition spec_roundtrip_nm (nm : string) (c : span_ctx) (o : option xobs) (same : bool) : list tok :=
   if ctx_valid c then
     match o with
-    | None => fail (kind_name k ++ "_roundtrip:lost")
+    | None => fail (nm ++ "_roundtrip:lost")
     | Some x =>
-        check (bytes_eqb (o_tid x) (c_tid c) && bytes_eqb (o_sid x) (c_sid c)) (kind_name k ++ "_roundtrip:ids_differ") ++
-        check (Bool.eqb (sampled_bit (o_flags x)) (sampled_bit (c_flags c))) (kind_name k ++ "_roundtrip:sampled_lost") ++
-        check (o_remote x) (kind_name k ++ "_roundtrip:not_remote")
+        check (bytes_eqb (o_tid x) (c_tid c) && bytes_eqb (o_sid x) (c_sid c)) (nm ++ "_roundtrip:ids_differ") ++
+        check (Bool.eqb (sampled_bit (o_flags x)) (sampled_bit (c_flags c))) (nm ++ "_roundtrip:sampled_lost") ++
+        check (o_remote x) (nm ++ "_roundtrip:not_remote")
     end
   else spec_total o same.
+Definition spec_roundtrip (k : prop_kind) (c : span_ctx) (o : option xobs) (same : bool) : list tok :=
+  spec_roundtrip_nm (kind_name k) c o same.
+
+(* the same sentence when Extract is handed a destination context that is not empty - whatever span (equal to the
+   injected one, differing in one field, invalid, none) and whatever unrelated values it holds: the result's span is the
+   injected identity marked remote, and the [nkeys] unrelated values of the destination are all still there *)
+Definition xkind_name (x : xkind) : string :=
+  match x with XOne k => kind_name k | XComposite => "composite" end.
+Definition spec_roundtrip_into (x : xkind) (c : span_ctx) (nkeys : nat) (o : option xobs) (same : bool) (intact : Z) : list tok :=
+  spec_roundtrip_nm (xkind_name x) c o same ++
+  check (Z.eqb intact (Z.of_nat nkeys)) "extract_into:unrelated_values_lost".
